@@ -24,6 +24,9 @@ let run (input : string) : string =
    whole-file checksum 0xB1B0AFBA); model-independent *)
 let judge (_input : string) (impl : string) (model : string) : verdict =
   if starts_with "panic" impl then Violation ("panic", "writer panicked")
+  else if starts_with "prov:" impl then
+    Violation ("inconsistent", "tables handed out by the WOFF2 table provider are not mutually consistent: "
+                               ^ String.sub impl 5 (String.length impl - 5))
   else if starts_with "ok:" impl then begin
     (* S / I results carry the harness' cross-table consistency flags after a second colon *)
     let body = String.sub impl 3 (String.length impl - 3) in
